@@ -177,6 +177,61 @@ theorem get_parts_refines (c : CHeap) (s a b : Nat) (p : Option Nat) (hlen : c.d
     · have : (s + (l1 - 1) == c.size - 1) = false := by simp; omega
       simp [h0, h1, this]
       omega
+theorem zero_count_zero_eq (h : Heap) (n1 X s n0 : Nat) (hlen : h.data.length = h.size) (h1 : n1 ≤ h.size)
+    (h0 : s + n0 ≤ h.size) :
+    zero { wr := (zero h 0 n1).wr, count := X, size := (zero h 0 n1).size, data := (zero h 0 n1).data, oob := (zero h 0 n1).oob } s n0 =
+      { h with count := X,
+               data := (List.replicate n1 0 ++ h.data.drop n1).take s ++ List.replicate n0 0 ++
+                        (List.replicate n1 0 ++ h.data.drop n1).drop (s + n0) } := by
+  rw [zero_eq h 0 n1 hlen (by omega)]
+  rw [zero_eq _ s n0 (by simp; omega) (by simpa using h0)]
+  simp
+
+/-! ### scpiheap_free -/
+
+/-- scpiheap_free on a pointer to a stored text `t` (the precondition of the hand model's `free_spec`): same state as the
+hand model, no access outside the heap.  `hcnt` (the freed bytes were counted as used) keeps `count += len` from wrapping. -/
+theorem free_refines (c : CHeap) (s : Nat) (t : Bytes) (rb : Bool) (hlen : c.data.length = c.size)
+    (hsz : c.size < 18446744073709551616) (hs : s < c.size) (hfit : t.length + 1 ≤ c.size) (hg : Lemmas.Heap.Good t)
+    (hh : Lemmas.Heap.Holds (toModel c) s t) (hcnt : c.count + (t.length + 1) ≤ c.size) (hwr : c.wr < c.size) :
+    scpiheap_free c (some s) rb = (ofModel (free (toModel c) (some s) rb), false) := by
+  have hgp := (Lemmas.Heap.getParts_of_holds (toModel c) s t hlen hs hfit hg hh).1
+  by_cases hc : s + t.length < c.size
+  · rw [toModel_size, if_pos hc] at hgp
+    have hz := zero_eq (toModel c) s (t.length + 1) hlen (by simp only [toModel_size]; omega)
+    simp only [scpiheap_free, get_parts_refines c s 0 0 none hlen hsz hs, Heap.free, hgp, partsResult]
+    simp [hz, memset, toModel_data, toModel_count, toModel_wr, toModel_size, ofModel, szadd_eq t.length 1 (by omega),
+      szadd_eq c.count (t.length + 1) (by omega), hlen, show s + (t.length + 1) ≤ c.size by omega]
+    clear hz hgp hh
+    repeat' split
+    all_goals (simp_all [szadd, szsub])
+    all_goals (try omega)
+  · rw [toModel_size, if_neg hc] at hgp
+    obtain ⟨_, zc, _, _, _, _⟩ := Lemmas.Heap.zero_spec (toModel c) 0 (t.length - (c.size - s) + 1) hlen
+      (by simp only [toModel_size]; omega)
+    have hz := zero_count_zero_eq (toModel c) (t.length - (c.size - s) + 1) (c.count + (t.length - (c.size - s) + 1)) s
+      (c.size - s) hlen (by simp only [toModel_size]; omega) (by simp only [toModel_size]; omega)
+    simp only [scpiheap_free, get_parts_refines c s 0 0 none hlen hsz hs, Heap.free, hgp, partsResult]
+    have e1 : t.length - (c.size - s) + 1 ≤ c.size := by omega
+    have e2 : s + (c.size - s) = c.size := by omega
+    simp [hz, zc, memset, toModel_data, toModel_count, toModel_wr, toModel_size, ofModel,
+      szadd_eq (t.length - (c.size - s)) 1 (by omega),
+      szadd_eq (c.size - s) (t.length - (c.size - s) + 1) (by omega), hlen, e1, e2]
+    clear hz hgp hh
+    repeat' split
+    all_goals (simp_all [szadd, szsub])
+    all_goals (try omega)
+
+theorem free_null (c : CHeap) (rb : Bool) : scpiheap_free c none rb = (ofModel (free (toModel c) none rb), false) := by
+  simp [scpiheap_free, Heap.free]
+
+/-- a pointer to a NUL byte (an entry already released): nothing happens, as in the hand model -/
+theorem free_at_nul (c : CHeap) (s : Nat) (rb : Bool) (hlen : c.data.length = c.size)
+    (hsz : c.size < 18446744073709551616) (hs : s < c.size) (h0 : c.data.getD s 0 = 0) :
+    scpiheap_free c (some s) rb = (ofModel (free (toModel c) (some s) rb), false) := by
+  have hgp : getParts (toModel c) s = none := by simp only [getParts, toModel_data, h0, if_true]
+  simp [scpiheap_free, get_parts_refines c s 0 0 none hlen hsz hs, Heap.free, hgp, partsResult]
+
 /-- NULL arguments: FALSE, nothing written -/
 theorem get_parts_null (c : Option CHeap) (s : Option Nat) (a b : Option Nat) (p : Option (Option Nat))
     (h : c = none ∨ s = none ∨ a = none ∨ p = none ∨ b = none) :
